@@ -23,9 +23,9 @@ CHECKS = {
             "A hash-order dependence on an input with k operations escapes N processes with probability ~ (1/k!)^(N-1); the corpus has many multi-operation WSDLs.",
             "byte-equality monitor over repeated executions (processes x threads x orders x call histories)"),
     "C13": ("exploration", "L",
-            "Crash/hang monitor: thousands of structure-aware mutants of real and synthetic schemas plus an enumerated grammar of invalid documents run read_xml+write_xml in child processes under catch_unwind, RLIMIT_CPU and an 8 MiB stack; any panic, signal or CPU-limit is a violation.",
+            "Crash/hang monitor: thousands of structure-aware mutants of real and synthetic schemas plus an enumerated grammar of invalid documents (thorough: plus the inputs a coverage-guided fuzzer keeps) run read_xml+write_xml in child processes under catch_unwind, RLIMIT_CPU and an 8 MiB stack; any panic, signal or CPU-limit is a violation.",
             "An unbounded input space, sampled; the evidence reports outcome distribution and operator classes reached.",
-            "process-boundary crash/hang monitor under mutation- and grammar-generated hostile inputs"),
+            "process-boundary crash/hang monitor under mutation-, grammar- and (thorough) coverage-guided-fuzzer-generated hostile inputs"),
     "C15": ("fault_enumeration", "L",
             "write_xml is run on an instrumented io::Write that fails at write call k for every k (small/medium documents; sampled for the 10^5-call ones) x {once, forever} x error kinds; the result must be Err(Io), never Ok or panic; short-write sinks must yield byte-identical output.",
             "Fault point = one io::Write::write call; flush is never called by the writer.",
